@@ -28,10 +28,16 @@ import (
 	"encoding/json"
 	"fmt"
 	"io"
+	"log"
+	"os"
+	"time"
 
 	"github.com/DistCompiler/pgo/distsys"
 	"github.com/DistCompiler/pgo/distsys/tla"
 	"github.com/DistCompiler/pgo/systems/raftkvs"
+	"github.com/DistCompiler/pgo/systems/raftkvs/bootstrap"
+	"github.com/DistCompiler/pgo/systems/raftkvs/configs"
+	"github.com/dgraph-io/badger/v3"
 
 	"verifharness/steplib"
 )
@@ -45,6 +51,13 @@ type Params struct {
 	Crashers    []int `json:"crashers"`
 	Keys        int   `json:"keys"`
 	Vals        int   `json:"vals"`
+	// Wiring: the 12 per-server shared variables (state, currentTerm, log, commitIndex, nextIndex, matchIndex, votedFor,
+	// votesResponded, votesGranted, leader, sm, smDomain) are NOT spec-state resources but the very resources that
+	// systems/raftkvs/bootstrap.newServerCtxs wires up for the five archetypes of each server (LocalShared views, persistence
+	// wrappers when Persist is set), obtained through the add-only verif hooks bootstrap.VerifServerCtxs and
+	// distsys.VerifArchetypeResource. Network, fd, timers, channels stay spec-state resources.
+	Wiring  bool `json:"wiring"`
+	Persist bool `json:"persist"`
 }
 
 type Cmd struct {
@@ -64,10 +77,11 @@ type Out struct {
 	Outcome string                 `json:"outcome"`
 	Err     string                 `json:"err,omitempty"`
 	PC      string                 `json:"pc"`
-	Choices [][3]interface{}       `json:"ch"`              // [id, ceiling, index]
-	Elems   []steplib.Elem         `json:"elems,omitempty"` // clients only
-	Locals  map[string]interface{} `json:"locals"`          // locals of this proc
-	State   map[string]interface{} `json:"state"`           // globals whose value changed since the previous observation
+	Choices [][3]interface{}       `json:"ch"`               // [id, ceiling, index]
+	Elems   []steplib.Elem         `json:"elems,omitempty"`  // clients only
+	Locals  map[string]interface{} `json:"locals"`           // locals of this proc
+	State   map[string]interface{} `json:"state"`            // globals whose value changed since the previous observation
+	Wiring  []string               `json:"wiring,omitempty"` // wiring mode: reads of a shared variable that did not return the last committed write
 }
 
 func num(i int) tla.Value { return tla.MakeNumber(int32(i)) }
@@ -265,12 +279,19 @@ func (mc *macros) plog(logConcat, logPop tla.Value) steplib.Macro {
 	}
 }
 
+var sharedVars = []string{"state", "currentTerm", "log", "commitIndex", "nextIndex", "matchIndex", "votedFor",
+	"votesResponded", "votesGranted", "leader", "sm", "smDomain"}
+
 // Session is one running system.
 type Session struct {
 	P     Params
 	Sys   *steplib.System
 	prev  map[string]string
 	procs []string
+	// wiring mode
+	shared  map[string]map[int]tla.Value // variable -> server -> last committed value (by any archetype of that server)
+	db      *badger.DB
+	scratch string
 }
 
 func key(i int) tla.Value { return tla.MakeString(fmt.Sprintf("k%d", i)) }
@@ -314,32 +335,84 @@ func NewSession(p Params) (*Session, error) {
 		blInit = tla.MakeTuple(tla.ModuleTRUE)
 	}
 	emptyFn := tla.MakeRecord(nil)
-	sys := steplib.NewSystem(map[string]tla.Value{
+	initShared := map[string]tla.Value{
+		"state":          raftkvs.Follower(iface),
+		"currentTerm":    num(1),
+		"commitIndex":    num(0),
+		"nextIndex":      steplib.ConstFn(servers, num(1)),
+		"matchIndex":     steplib.ConstFn(servers, num(0)),
+		"log":            tla.MakeTuple(),
+		"votedFor":       raftkvs.Nil(iface),
+		"votesResponded": tla.MakeSet(),
+		"votesGranted":   tla.MakeSet(),
+		"leader":         raftkvs.Nil(iface),
+		"sm":             emptyFn,
+		"smDomain":       raftkvs.KeySet(iface),
+	}
+	globals := map[string]tla.Value{
 		"network":         steplib.ConstFn(nodes, netRec(tla.MakeTuple(), tla.ModuleTRUE)),
 		"fd":              steplib.ConstFn(servers, tla.ModuleFALSE),
-		"state":           steplib.ConstFn(servers, raftkvs.Follower(iface)),
-		"currentTerm":     steplib.ConstFn(servers, num(1)),
-		"commitIndex":     steplib.ConstFn(servers, num(0)),
-		"nextIndex":       steplib.ConstFn(servers, steplib.ConstFn(servers, num(1))),
-		"matchIndex":      steplib.ConstFn(servers, steplib.ConstFn(servers, num(0))),
-		"log":             steplib.ConstFn(servers, tla.MakeTuple()),
 		"plog":            steplib.ConstFn(servers, tla.MakeTuple()),
-		"votedFor":        steplib.ConstFn(servers, raftkvs.Nil(iface)),
-		"votesResponded":  steplib.ConstFn(servers, tla.MakeSet()),
-		"votesGranted":    steplib.ConstFn(servers, tla.MakeSet()),
-		"leader":          steplib.ConstFn(servers, raftkvs.Nil(iface)),
-		"sm":              steplib.ConstFn(servers, emptyFn),
-		"smDomain":        steplib.ConstFn(servers, raftkvs.KeySet(iface)),
 		"leaderTimeout":   tla.ModuleTRUE,
 		"appendEntriesCh": steplib.ConstFn(servers, tla.MakeTuple()),
 		"becomeLeaderCh":  steplib.ConstFn(servers, blInit),
 		"reqCh":           tla.Value{},
 		"respCh":          tla.Value{},
 		"timeout":         tla.ModuleFALSE,
-	})
+	}
+	if !p.Wiring {
+		for v, init := range initShared {
+			globals[v] = steplib.ConstFn(servers, init)
+		}
+	}
+	sys := steplib.NewSystem(globals)
 	sys.Timeout = 20e9
 	mc := &macros{p: p, reqs: allReqs(p)}
 	id := steplib.Identity
+	s := &Session{P: p, Sys: sys, prev: map[string]string{}}
+	var donors map[int][]*distsys.MPCalContext
+	if p.Wiring {
+		log.SetOutput(io.Discard)
+		s.shared = map[string]map[int]tla.Value{}
+		for v, init := range initShared {
+			s.shared[v] = map[int]tla.Value{}
+			for i := 1; i <= n; i++ {
+				s.shared[v][i] = init
+			}
+		}
+		root := configs.Root{
+			NumServers: n, NumClients: p.NC, Persist: p.Persist,
+			FD:                        configs.FD{PullInterval: time.Hour, Timeout: 20 * time.Millisecond},
+			Mailboxes:                 configs.Mailboxes{ReceiveChanSize: 10, DialTimeout: 20 * time.Millisecond, ReadTimeout: 20 * time.Millisecond, WriteTimeout: 20 * time.Millisecond},
+			LeaderElection:            configs.LeaderElection{Timeout: time.Hour, TimeoutOffset: time.Second},
+			AppendEntriesSendInterval: time.Hour,
+			SharedResourceTimeout:     500 * time.Millisecond,
+			InputChanReadTimeout:      10 * time.Millisecond,
+			Servers:                   map[int]configs.Server{},
+			Clients:                   map[int]configs.Client{},
+		}
+		for i := 1; i <= n; i++ {
+			root.Servers[i] = configs.Server{MailboxAddr: "127.0.0.1:1", MonitorAddr: "127.0.0.1:1"}
+		}
+		if p.Persist {
+			s.scratch = fmt.Sprintf("/var/tmp/verif-%d/c08-badger-%d", os.Getpid(), time.Now().UnixNano())
+			if err := os.MkdirAll(s.scratch, 0o755); err != nil {
+				return nil, err
+			}
+			db, err := badger.Open(badger.DefaultOptions(s.scratch).WithLogger(nil))
+			if err != nil {
+				return nil, err
+			}
+			s.db = db
+		}
+		donors = map[int][]*distsys.MPCalContext{}
+		for i := 1; i <= n; i++ {
+			donors[i] = bootstrap.VerifServerCtxs(i, root, s.db)
+			if len(donors[i]) != 5 {
+				return nil, fmt.Errorf("bootstrap built %d contexts for server %d, expected 5", len(donors[i]), i)
+			}
+		}
+	}
 	srvBinds := []steplib.Binding{
 		{Param: "net", Var: "network", Depth: 1, Macro: mc.link()},
 		{Param: "netLen", Var: "network", Depth: 1, Macro: mc.netLen()},
@@ -364,11 +437,36 @@ func NewSession(p Params) (*Session, error) {
 	}
 	archs := []distsys.MPCalArchetype{raftkvs.AServer, raftkvs.AServerRequestVote, raftkvs.AServerAppendEntries,
 		raftkvs.AServerAdvanceCommitIndex, raftkvs.AServerBecomeLeader}
-	s := &Session{P: p, Sys: sys, prev: map[string]string{}}
+	isShared := map[string]bool{}
+	for _, v := range sharedVars {
+		isShared[v] = true
+	}
+	if p.Wiring {
+		var envBinds []steplib.Binding
+		for _, b := range srvBinds {
+			if !isShared[b.Param] {
+				envBinds = append(envBinds, b)
+			}
+		}
+		srvBinds = envBinds
+	}
 	for i := 1; i <= n; i++ {
 		for k, arch := range archs {
 			name := fmt.Sprintf("s%d.%d", i, k)
 			extra := append([]distsys.MPCalContextConfigFn{distsys.EnsureArchetypeValueParam("srvId", num(i))}, constants...)
+			if p.Wiring {
+				// the shared variables of this archetype instance are the resources the bootstrap package wired for it
+				if donors[i][k].Archetype().Name != arch.Name {
+					return nil, fmt.Errorf("bootstrap context %d of server %d is %s, expected %s", k, i, donors[i][k].Archetype().Name, arch.Name)
+				}
+				for _, v := range sharedVars {
+					res := distsys.VerifArchetypeResource(donors[i][k], "&"+arch.Name+"."+v)
+					if res == nil {
+						return nil, fmt.Errorf("bootstrap did not bind %s.%s for server %d", arch.Name, v, i)
+					}
+					extra = append(extra, distsys.EnsureArchetypeRefParam(v, res))
+				}
+			}
 			sys.AddProc(name, num(i+k*n), arch, srvBinds, extra...)
 			s.procs = append(s.procs, name)
 		}
@@ -403,6 +501,15 @@ func NewSession(p Params) (*Session, error) {
 
 func (s *Session) delta(full bool) map[string]interface{} {
 	snap := s.Sys.State.Snapshot()
+	if s.P.Wiring {
+		for _, v := range sharedVars {
+			var pairs []tla.Value
+			for i := 1; i <= s.P.N; i++ {
+				pairs = append(pairs, num(i), s.shared[v][i])
+			}
+			snap[v] = steplib.Enc(steplib.Fn(pairs...))
+		}
+	}
 	out := map[string]interface{}{}
 	for k, v := range snap {
 		t := steplib.Text(v)
@@ -424,11 +531,77 @@ func (s *Session) Step(proc string, choices []uint64, full bool) Out {
 	if len(proc) > 0 && proc[0] == 'c' {
 		o.Elems = obs.Elems
 	}
+	if s.P.Wiring {
+		o.Wiring = s.checkWiring(obs)
+	}
 	o.State = s.delta(full)
 	return o
 }
 
-func (s *Session) Close() { s.Sys.Close() }
+// checkWiring: every read of a shared variable of server i by any archetype must return the last value committed to it by
+// ANY archetype of server i (or what this attempt wrote itself); committed writes update that value.
+func (s *Session) checkWiring(obs steplib.Obs) []string {
+	var bad []string
+	type key struct {
+		v string
+		i int
+	}
+	overlay := map[key]tla.Value{}
+	for _, e := range obs.Elems {
+		dot := -1
+		for k := 0; k < len(e.Name); k++ {
+			if e.Name[k] == '.' {
+				dot = k
+			}
+		}
+		if dot < 0 || len(e.Indices) != 1 {
+			continue
+		}
+		v := e.Name[dot+1:]
+		if _, ok := s.shared[v]; !ok {
+			continue
+		}
+		fi, ok := e.Indices[0].(int)
+		if !ok {
+			continue
+		}
+		val := steplib.Dec(normalize(e.Value))
+		k := key{v, fi}
+		if e.Kind == "w" {
+			overlay[k] = val
+			continue
+		}
+		want, ok := overlay[k]
+		if !ok {
+			want = s.shared[v][fi]
+		}
+		if steplib.EncText(want) != steplib.EncText(val) {
+			bad = append(bad, fmt.Sprintf("%s[%d] read by %s (%s) returned %s, last committed write was %s", v, fi, obs.Proc, obs.Label, steplib.EncText(val), steplib.EncText(want)))
+		}
+	}
+	if obs.Outcome == "commit" {
+		for k, val := range overlay {
+			s.shared[k.v][k.i] = val
+		}
+	}
+	return bad
+}
+
+// normalize turns an Enc'd value (ints as int) into the shape json.Unmarshal would give (steplib.Dec accepts both)
+func normalize(x interface{}) interface{} { return x }
+
+func (s *Session) Close() {
+	s.Sys.Close()
+	if s.db != nil {
+		s.db.Close()
+		s.db = nil
+	}
+	if s.scratch != "" {
+		os.RemoveAll(s.scratch)
+		os.Remove(fmt.Sprintf("/var/tmp/verif-%d", os.Getpid())) // only if empty
+		s.scratch = ""
+	}
+}
 
 // Serve runs the line protocol.
 func Serve(in io.Reader, outw io.Writer) error {
